@@ -39,7 +39,15 @@ fn corrupt(rng: &mut Rng, moves: &mut Vec<String>, boards: &[Board]) {
         return;
     }
     let i = rng.below(moves.len() as u64) as usize;
-    match rng.below(7) {
+    match rng.below(8) {
+        7 => {
+            // an over-long move token with multi-byte characters at odd byte offsets
+            let mut t = moves[i].clone();
+            for k in 0..(24 + rng.below(40)) {
+                t.push(['é', '€', 'ß', '𝄞'][((k + rng.below(2)) % 4) as usize]);
+            }
+            moves[i] = t;
+        }
         0 => moves[i] = "a1h8".into(),
         1 => moves[i] = format!("{}k", &moves[i][..4]),
         2 => moves[i] = moves[i].to_uppercase(),
@@ -107,6 +115,14 @@ fn junk_line(rng: &mut Rng) -> String {
         }
     }
     // never a bare quit in the middle, never `position fen` with junk (FEN arguments are assumed valid), never a real `go`
+    if rng.below(12) == 0 {
+        // an over-long token with multi-byte characters at odd offsets (a byte-indexed cut can land inside one)
+        let mut t = "x".repeat(1 + rng.below(4) as usize);
+        for i in 0..(20 + rng.below(60)) {
+            t.push(['é', 'ß', '€', '𝄞', 'a'][((i + rng.below(2)) % 5) as usize]);
+        }
+        toks.insert(rng.below(toks.len() as u64 + 1) as usize, t);
+    }
     let line = toks.join(if rng.below(5) == 0 { "  \t " } else { " " });
     let t: Vec<&str> = line.split_whitespace().collect();
     if t.first() == Some(&"quit") || (t.first() == Some(&"position") && t.get(1) == Some(&"fen")) || t.first() == Some(&"go") {
@@ -144,6 +160,38 @@ pub fn uci_stream(args: &[String]) {
     for sidx in 0..sessions {
         let mut lines: Vec<String> = vec![];
         let n = 2 + rng.below(10);
+        if rng.below(6) == 0 {
+            // two DIFFERENT start positions from which the same move strings are legal (same placement, another move number /
+            // clock, or `startpos` against its FEN), visited alternately with growing, shrinking and refused move lists and with
+            // bare positions in between: whatever the engine remembers of the previous command must not leak into this one
+            let fen = super::walk::SEEDS[rng.below(super::walk::SEEDS.len() as u64) as usize];
+            let start = rng.below(2) == 0;
+            let base = if start { super::walk::SEEDS[0] } else { fen };
+            let f: Vec<&str> = base.split(' ').collect();
+            let a = if start { "position startpos".to_string() } else { format!("position fen {base}") };
+            let b = format!("position fen {} {} {} {} {} {}", f[0], f[1], f[2], f[3], rng.below(40), 2 + rng.below(90));
+            let other = super::walk::SEEDS[rng.below(super::walk::SEEDS.len() as u64) as usize];
+            let (moves, _) = rand_game(&mut rng, base, 10);
+            let pre = |h: &str, k: usize| if k == 0 { h.to_string() } else { format!("{h} moves {}", moves[..k].join(" ")) };
+            let mut k = moves.len().min(1 + rng.below(3) as usize);
+            for _ in 0..(4 + rng.below(8)) {
+                let h = if rng.below(2) == 0 { &a } else { &b };
+                match rng.below(7) {
+                    0 => lines.push(format!("{h} moves {} e9e9", moves[..k].join(" "))), // refused
+                    1 => lines.push(format!("{h} moves zz")),                              // refused at once
+                    2 => lines.push(format!("position fen {other}")),                      // a bare other position
+                    3 => lines.push(h.to_string()),                                        // the bare start
+                    4 => {
+                        k = k.saturating_sub(1 + rng.below(2) as usize);
+                        lines.push(pre(h, k));
+                    }
+                    _ => {
+                        k = (k + 1 + rng.below(2) as usize).min(moves.len());
+                        lines.push(pre(h, k));
+                    }
+                }
+            }
+        }
         if rng.below(3) == 0 {
             // an incremental game: the same start with a growing move list, re-sent prefixes, and other commands in between
             let fen = super::walk::SEEDS[rng.below(super::walk::SEEDS.len() as u64) as usize];
